@@ -29,17 +29,20 @@ Cuts(sc) ==
   IF pi = {} THEN {0} ELSE 0..MaxOf({Len(ReadOutcome(sc, ms[i]).full) : i \in pi})
 
 \* disagreements between outcome o and the CLI observation
+\* ns = MayTotal(sc): non-regular entries a -R walk passes; their rows are not judged, each may add one read error
 CliDiff(sc, o, obs) ==
-  (IF o.tally = Tally(obs.rows) THEN {} ELSE {"rows"}) \cup
-  (IF o.exit = obs.exit THEN {} ELSE {"exit"}) \cup
-  (IF o.msg = obs.msg THEN {} ELSE {"msg"}) \cup
-  (IF obs.nlog <= o.nerr /\ o.nerr <= obs.nlog + obs.nunk THEN {} ELSE {"nlog"}) \cup
-  (IF sc.cmd = "filter" /\ (o.matched # obs.matched \/ o.read # obs.read) THEN {"summary"} ELSE {}) \cup
+  LET ns == MayTotal(sc) free == FreeNames(sc) IN
+  (IF o.tally = Judged(Tally(obs.rows), free) THEN {} ELSE {"rows"}) \cup
+  (IF ns = 0 THEN (IF o.exit = obs.exit THEN {} ELSE {"exit"}) \cup (IF o.msg = obs.msg THEN {} ELSE {"msg"})
+   ELSE IF <<obs.exit, obs.msg>> \in AllowedEnd(o, ns) THEN {} ELSE {"exit"}) \cup
+  (IF obs.nlog <= o.nerr + ns /\ o.nerr <= obs.nlog + obs.nunk THEN {} ELSE {"nlog"}) \cup
+  (IF sc.cmd = "filter" /\ (IF ns = 0 THEN o.matched # obs.matched \/ o.read # obs.read
+                                     ELSE o.matched > obs.matched \/ o.read > obs.read) THEN {"summary"} ELSE {}) \cup
   \* peak = the largest number of mentioned inputs seen open at the same time (-1: not sampled)
   (IF obs.peak > MaxOpen(sc) THEN {"fds"} ELSE {})
 LibDiff(sc, o, lib) ==
-  (IF o.tally = Tally(lib.rows) THEN {} ELSE {"lib-rows"}) \cup
-  (IF o.nerr = lib.nerr THEN {} ELSE {"lib-nerr"}) \cup
+  (IF o.tally = Judged(Tally(lib.rows), FreeNames(sc)) THEN {} ELSE {"lib-rows"}) \cup
+  (IF o.nerr <= lib.nerr /\ lib.nerr <= o.nerr + MayTotal(sc) THEN {} ELSE {"lib-nerr"}) \cup
   (IF lib.peak > MaxOpen(sc) THEN {"lib-fds"} ELSE {})
 
 \* the smallest set of disagreements over the allowed cuts ({} = explained)
